@@ -153,6 +153,50 @@ def _superpose_body(col, p, integrate, dense, thetas, coefs, shape, N, d):
     col.distinct('nontrivial', ('superpose', d, G, json.dumps(op)[:200], tuple(nomut or ()), lo))
 
 
+def case_superpose_manip(col, p):
+    """the density operations between integrations (splits, admixture into a new population, pulses, removal, reordering) are linear maps:
+    op(a*phi1 + b*phi2) = a*op(phi1) + b*op(phi2) for every unit density phi1, a dense phi2 and coefficient pairs of either sign (the
+    difference of two models - a finite-difference derivative - is a signed density)"""
+    d, G = p['d'], p['G']
+    xx = space.grid(p['grid'], G, p['seed'])
+    shape = (G,) * d
+    N = G ** d
+    rng = np.random.RandomState(p['seed'] + 29)
+    dense = rng.uniform(0.1, 1.0, size=shape)
+    ops = [op for op in PR.enabled(d, 5, selection=False) if op[0] != 'int']
+    coefs = [(1.0, 1.0), (2.0, -0.5), (-1.0, 1.5), (1.0, -0.5), (-1.0, -1.0), (3.0, 0.25)]
+    lo, hi = p['units']
+    n = 0
+    for op in ops:
+        def apply(phi):
+            snap = phi.copy()
+            out = np.array(PR.run([op], xx, phi0=phi), dtype=float)
+            if not np.array_equal(phi, snap):
+                col.violation('C03:superposition:%s:input_modified' % op[0], dict(p, op=op), '')
+                phi[...] = snap
+            return out
+        r2 = apply(dense)
+        for j in range(lo, hi):
+            e = np.zeros(N)
+            e[j] = 1.0
+            phi1 = e.reshape(shape)
+            r1 = apply(phi1)
+            col.tick(transitions=1)
+            for a, b in coefs:
+                lhs = apply(a * phi1 + b * dense)
+                rhs = a * r1 + b * r2
+                col.tick(transitions=1)
+                n += 1
+                sc = max(1.0, float(np.abs(r1).max()), float(np.abs(r2).max()))
+                err = float(np.abs(lhs - rhs).max())
+                if not err <= 1e-11 * sc:
+                    col.violation('C03:superposition:%s%dD' % (op[0], d), dict(p, op=op, unit=j, a=a, b=b), {'maxerr': err, 'scale': sc})
+                    break
+                col.observe('superposition_manip', err / (1e-11 * sc))
+    col.tick(states=n, traces=n)
+    col.distinct('nontrivial', ('superpose_manip', d, G, lo))
+
+
 INIT_GAMMAS = [-1e6, -1e4, -400.0, -300.5, -299.0, -40.0, -3.0, -1e-3, 0.0, 1e-3, 2.0, 40.0, 299.0, 301.0, 1e3]
 INIT_HS = [0.0, 0.2, 0.5, 0.7, 1.0]
 INIT_NUS = [0.1, 0.5, 1.0, 3.0, 10.0]
@@ -202,7 +246,7 @@ def case_init_lattice(col, p):
     col.distinct('nontrivial', ('init_lattice', p['G'], p['grid'], h))
 
 
-CASES = {'rescale': case_rescale, 'superpose': case_superpose, 'init_lattice': case_init_lattice}
+CASES = {'rescale': case_rescale, 'superpose': case_superpose, 'init_lattice': case_init_lattice, 'superpose_manip': case_superpose_manip}
 
 
 def _dispatch(col, case):
@@ -250,6 +294,13 @@ def run(ctx):
     cases.append({'kind': 'init_lattice', 'G': 9, 'grid': 'I', 'seed': seed, 'theta0': 1.7, 'h': 0.5})
     # superposition
     Gd = {1: 7, 2: 5, 3: 4, 4: 3, 5: 3}
+    for d in range(1, 6):
+        N = Gd[d] ** d
+        chunk = N if d <= 3 else 27
+        for lo in range(0, N, chunk):
+            if ctx.quick and d == 5 and (lo // chunk) % 3 != seed % 3:
+                continue
+            cases.append({'kind': 'superpose_manip', 'd': d, 'G': Gd[d], 'grid': 'D', 'seed': seed, 'units': (lo, min(N, lo + chunk))})
     for d in range(1, 6):
         G = Gd[d]
         N = G ** d
